@@ -1,3 +1,5 @@
+//go:build p_c03 || p_c05 || p_c07 || p_c11 || p_c14 || p_all
+
 package main
 
 // Registration of the history-based properties C03 C05 C07 C11 C14.
